@@ -173,6 +173,10 @@ pub struct PeerShared {
     pub da1_requests: AtomicU64,
     pub answer_da1: AtomicBool,
     pub hung_up: AtomicBool,
+    /// cursor position queries (`ESC [ 6 n`) seen; answered with `ESC [ 3 ; 4 R`
+    pub cpr_requests: AtomicU64,
+    /// bytes "typed" right behind the next DA1 reply: they go out in the same write as the reply
+    pub after_da1: Mutex<Vec<u8>>,
 }
 
 pub struct Peer {
@@ -190,6 +194,8 @@ impl Peer {
             da1_requests: AtomicU64::new(0),
             answer_da1: AtomicBool::new(true),
             hung_up: AtomicBool::new(false),
+            cpr_requests: AtomicU64::new(0),
+            after_da1: Mutex::new(Vec::new()),
         });
         let sh = shared.clone();
         let handle = std::thread::spawn(move || {
@@ -229,30 +235,35 @@ impl Peer {
                     continue;
                 }
                 let n = n as usize;
-                let mut replies = 0;
+                // replies in the order of the requests, sent with one write
+                let mut reply: Vec<u8> = Vec::new();
                 {
                     let mut rec = sh.received.lock().unwrap();
                     rec.extend_from_slice(&buf[..n]);
-                    // primary device attributes request: ESC [ c
-                    let start = scanned.saturating_sub(2);
+                    // primary device attributes request: ESC [ c ; cursor position request: ESC [ 6 n
+                    let start = scanned.saturating_sub(3);
                     let mut i = start;
-                    while i + 3 <= rec.len() {
-                        if &rec[i..i + 3] == b"\x1b[c" {
-                            replies += 1;
+                    while i < rec.len() {
+                        if rec[i..].starts_with(b"\x1b[c") && i + 3 > scanned {
+                            sh.da1_requests.fetch_add(1, Ordering::SeqCst);
+                            if sh.answer_da1.load(Ordering::SeqCst) {
+                                reply.extend_from_slice(b"\x1b[?62;c");
+                                reply.append(&mut sh.after_da1.lock().unwrap());
+                            }
                             i += 3;
+                        } else if rec[i..].starts_with(b"\x1b[6n") && i + 4 > scanned {
+                            sh.cpr_requests.fetch_add(1, Ordering::SeqCst);
+                            reply.extend_from_slice(b"\x1b[3;4R");
+                            i += 4;
                         } else {
                             i += 1;
                         }
                     }
                     scanned = rec.len();
                 }
-                for _ in 0..replies {
-                    sh.da1_requests.fetch_add(1, Ordering::SeqCst);
-                    if sh.answer_da1.load(Ordering::SeqCst) {
-                        let reply = b"\x1b[?62;c";
-                        unsafe {
-                            libc::write(master, reply.as_ptr() as *const _, reply.len());
-                        }
+                if !reply.is_empty() {
+                    unsafe {
+                        libc::write(master, reply.as_ptr() as *const _, reply.len());
                     }
                 }
                 match drain {
